@@ -102,10 +102,17 @@ def shownDiag? (d : Diag) : Option ShownDiag :=
   | [] => none
   | h :: _ => some ⟨d.level, d.name, h.line, h.col, d.text⟩
 
+/-- `some` of all the values if every element is `some`. -/
+def allSome {α} : List (Option α) → Option (List α)
+  | [] => some []
+  | none :: _ => none
+  | some a :: r => (allSome r).map (a :: ·)
+
+def shownFile? (basename : String) (st : Status) (sorted : List Diag) : Option ShownFile :=
+  (allSome (sorted.map shownDiag?)).map (fun ds => ⟨basename, st, ds⟩)
+
 def humanDoc (fs : List FileRep) : Option (List ShownFile) :=
-  fs.mapM fun f => do
-    let ds ← (sortDiags f.diags).mapM shownDiag?
-    pure ⟨f.basename, status f.diags, ds⟩
+  allSome (fs.map fun f => shownFile? f.basename (status f.diags) (sortDiags f.diags))
 
 /-- The JSON document (`asdict` of every error, all highlights kept). -/
 structure JsonFile where
@@ -122,9 +129,7 @@ def basenameOf (p : String) : String :=
   (p.splitOn "/").getLast?.getD p
 
 def projectJson (js : List JsonFile) : Option (List ShownFile) :=
-  js.mapM fun j => do
-    let ds ← j.errors.mapM shownDiag?
-    pure ⟨basenameOf j.path, j.status, ds⟩
+  allSome (js.map fun j => shownFile? (basenameOf j.path) j.status j.errors)
 
 /-! ### Text rendering (compared byte for byte with the real formatters) -/
 
